@@ -1,6 +1,7 @@
 package main
 
 import (
+	"sort"
 	"fmt"
 
 	"golang.org/x/tools/go/ssa"
@@ -31,6 +32,7 @@ func verifIsSym(v int) bool
 func verifVFSRoot() string
 func verifVFSPut(name string, content []byte)
 func verifVFSDel(name string)
+func verifVFSList() []string
 func verifTask(name string, notification bool)
 func verifSched(explore bool)
 func verifMapOrder(explore bool)
@@ -231,6 +233,15 @@ var intrinsics = map[string]extFn{
 	"verifVFSDel": func(e *Engine, _ *frame, _ *ssa.Function, a []value) value {
 		delete(e.vfs, e.needStr(a[0], "verifVFSDel"))
 		return nil
+	},
+	// the names of all virtual files, sorted (used by environment models written as harness code)
+	"verifVFSList": func(e *Engine, _ *frame, _ *ssa.Function, a []value) value {
+		names := make([]string, 0, len(e.vfs))
+		for n := range e.vfs {
+			names = append(names, n)
+		}
+		sort.Strings(names)
+		return strSliceVal(names)
 	},
 	"verifMapOrder": func(e *Engine, _ *frame, _ *ssa.Function, a []value) value {
 		e.permOff = !e.truth(a[0])
